@@ -59,7 +59,7 @@ def _anchors(prop, verif_dir):
 
 
 def run_worker(args):
-    from pbmon.core import Ctx, HarnessError
+    from pbmon.core import Ctx, HarnessError, ValidInputRefused
     replay = None
     if args.replay:
         with open(args.replay) as fh:
@@ -110,6 +110,8 @@ def run_worker(args):
                     func(ctx, idx, rng)
                 except HarnessError:
                     raise
+                except ValidInputRefused as exc:
+                    ctx.violation(exc.oracle, exc.what, None, dict(exc.features, what="valid_input_refused"))
                 except Exception as exc:  # a bug in the harness, not a verdict
                     import traceback
                     tb = traceback.format_exc()
